@@ -61,6 +61,11 @@ class _Canon(ast.NodeTransformer):
 
     def visit_UnaryOp(self, node):
         self.generic_visit(node)
+        # not (a is b) -> a is not b ; not (a in b) -> a not in b   (exact for every operand type)
+        if isinstance(node.op, ast.Not) and isinstance(node.operand, ast.Compare) and len(node.operand.ops) == 1:
+            flip = {ast.Is: ast.IsNot, ast.IsNot: ast.Is, ast.In: ast.NotIn, ast.NotIn: ast.In}.get(type(node.operand.ops[0]))
+            if flip is not None:
+                return ast.copy_location(ast.Compare(left=node.operand.left, ops=[flip()], comparators=node.operand.comparators), node)
         # -<number> as one constant (the Cython front end delivers Constant(-1))
         if isinstance(node.op, ast.USub) and isinstance(node.operand, ast.Constant) and \
                 isinstance(node.operand.value, (int, float)) and not isinstance(node.operand.value, bool):
@@ -82,6 +87,12 @@ class _Canon(ast.NodeTransformer):
 
     def visit_If(self, node):
         self.generic_visit(node)
+        # `if x is not None: A else: B`  ->  `if x is None: B else: A`   (plain if/else only)
+        if isinstance(node.test, ast.Compare) and len(node.test.ops) == 1 and isinstance(node.test.ops[0], ast.IsNot) \
+                and isinstance(node.test.comparators[0], ast.Constant) and node.test.comparators[0].value is None \
+                and node.orelse and not (len(node.orelse) == 1 and isinstance(node.orelse[0], ast.If)):
+            node.test = ast.copy_location(ast.Compare(left=node.test.left, ops=[ast.Is()], comparators=node.test.comparators), node.test)
+            node.body, node.orelse = node.orelse, node.body
         # `if not c: B else: A`  ->  `if c: A else: B`   (only plain if/else)
         if isinstance(node.test, ast.UnaryOp) and isinstance(node.test.op, ast.Not) and node.orelse \
                 and not (len(node.orelse) == 1 and isinstance(node.orelse[0], ast.If)):
